@@ -481,7 +481,7 @@ def _doc_text(r, arcs_under_tf):
                           'scale1': 'scale(%s)' % r.choice([0.5, 2, 3]), 'rotate': 'rotate(%s)' % round(r.uniform(-180, 180), 1),
                           'rotate3': 'rotate(%s %s %s)' % (round(r.uniform(-180, 180), 1), v(), v()), 'matrix': 'matrix(%s %s %s %s %s %s)' % (v(), v(), v(), v(), v(), v()),
                           'skewX': 'skewX(%s)' % round(r.uniform(-60, 60), 1), 'skewY': 'skewY(%s)' % round(r.uniform(-60, 60), 1)}[op])
-        return ' '.join(parts)
+        return r.choice([' ', ' ', ', ', ',', '  ']).join(parts)     # the SVG grammar separates transforms by whitespace and/or a comma
 
     def shape(m, identity_so_far):
         counter['n'] += 1
